@@ -79,7 +79,8 @@ def run_hier(c):
         for j, k in enumerate(built[:-1]):
             try:
                 b = k()
-                setup_tunables(b, "smdef_%d_%d_b%d" % (os.getpid(), uid, j))
+                # ... under the very name the derived machine is going to use (the key is already taken when it comes up)
+                setup_tunables(b, "smdef_%d_%d" % (os.getpid(), uid))
                 list(b.state_names), list(b.state_descriptions)
             except Exception:  # noqa
                 pass
